@@ -1,6 +1,6 @@
 """Generic driver for a ledger-family check: MC run + scenario family + trace validation."""
 import os, shutil, sys, time
-import vlib, ledger, mc
+import vlib, ledger, mc, conf
 
 
 def run_check(pid, family, tags, rule, corrupt=None, findings=None, crash_owner=False, assumptions=(), extra_cov=None,
@@ -24,11 +24,14 @@ def run_check(pid, family, tags, rule, corrupt=None, findings=None, crash_owner=
         extra = dict(extra_cov or {})
         if post:
             extra.update(post(results) or {})
-        return ledger.finish(pid, results, stats, tags, t0, mc=mcres, rule=rule,
+        nconf = conf.check(pid)          # defaults the daemon is built with vs. Config.tla (the scenario runs set their own schedule)
+        extra["configuration_differences"] = nconf
+        rc = ledger.finish(pid, results, stats, tags, t0, mc=mcres, rule=rule,
                              samples=[ledger.sample_of(r) for r in results[:2]],
                              assumptions=list(assumptions) or ["fake factomd serves exactly the generated chain", "TLC and the Big.tla arithmetic",
                                                                 "pegnet OPR grader module as grading oracle"],
                              findings_matcher=findings, crash_owner=crash_owner, extra_cov=extra)
+        return 1 if nconf else rc
     finally:
         shutil.rmtree(work, ignore_errors=True)
 
